@@ -29,6 +29,7 @@ import (
 
 	"github.com/mycoria/mycoria/config"
 	"github.com/mycoria/mycoria/frame"
+	"github.com/mycoria/mycoria/m"
 
 	"verif/core"
 	"verif/ids"
@@ -38,7 +39,11 @@ import (
 var c07Opts = core.Opts{ID: "C07", Quick: 1500, Thorough: 40000}
 
 var c07Kinds = []string{"hello-request", "hello-response", "pong-request", "pong-response", "error-generic", "error-unreachable",
-	"error-no-keys", "error-access-denied", "error-rejected", "error-unknown-code", "disconnect-going-down", "disconnect-list", "announce"}
+	"error-no-keys", "error-access-denied", "error-rejected", "error-unknown-code", "disconnect-going-down", "disconnect-list", "announce",
+	// The router's own disconnect pings go to the all-routers address in a frame
+	// type that receivers route onward instead of handling; the handler is reached
+	// by an (equally authentic) disconnect ping addressed to the victim itself.
+	"disconnect-going-down-unicast", "disconnect-list-unicast"}
 
 type c07Env struct {
 	c   *core.Case
@@ -211,8 +216,38 @@ func TestC07(t *testing.T) {
 			}
 		}
 
+		// Extra routes in V's table ("for all routing-table contents when a
+		// disconnect arrives"): gossip routes over generated relay sequences of mesh
+		// routers, so that X also shows up in the middle of paths and unrelated
+		// routes sit before and after them.
+		if !firstContact {
+			peers := topo.adj()[vi]
+			for k, n := 0, c.Int("pre.extra-routes", 0, 8); k < n; k++ {
+				dst := others[c.Pick("extra.dst", len(others))]
+				nh := ms.nodes[peers[c.Pick("extra.nh", len(peers))]]
+				hops := []m.SwitchHop{{Router: V.IP(), ForwardLabel: V.Links[nh.IP()].Label, Delay: 3}}
+				seen := map[netip.Addr]bool{V.IP(): true, dst.IP(): true}
+				cur := nh
+				for r, nr := 0, c.Int("extra.relays", 1, 4); r < nr && cur != dst; r++ {
+					if seen[cur.IP()] {
+						break
+					}
+					seen[cur.IP()] = true
+					hops = append(hops, m.SwitchHop{Router: cur.IP(), ForwardLabel: m.SwitchLabel(c.Int("extra.f", 1, 120)), ReturnLabel: m.SwitchLabel(c.Int("extra.r", 1, 120)), Delay: uint16(c.Int("extra.d", 1, 40))})
+					cur = others[c.Pick("extra.relay", len(others))]
+				}
+				if len(hops) < 2 {
+					continue
+				}
+				hops = append(hops, m.SwitchHop{Router: dst.IP(), ReturnLabel: m.SwitchLabel(c.Int("extra.rl", 1, 120))})
+				e := m.RoutingTableEntry{DstIP: dst.IP(), NextHop: hops[1].Router, Source: m.RouteSourceGossip, Expires: time.Now().Add(time.Hour)}
+				e.Path.Hops = hops
+				_, _ = V.Rtr.Table().AddRoute(e)
+			}
+		}
+
 		// Produce the genuine ping.
-		kind := c.Pick("kind", len(c07Kinds))
+		kind := c.Weighted("kind", 3, 2, 1, 1, 1, 2, 2, 2, 2, 1, 2, 2, 4, 4, 3)
 		if firstContact {
 			kind = core.OneOf(c, "kind.fc", 0, 2, 4, 5, 9)
 		}
@@ -271,6 +306,12 @@ func TestC07(t *testing.T) {
 			})
 		case "announce":
 			held = env.hold(func() { _ = X.Rtr.VerifAnnounce() })
+		case "disconnect-going-down-unicast":
+			body, _ := cbor.Marshal(map[string]any{"off": true})
+			held = env.hold(sendCrafted(frame.RouterPing, "disconnect", 0, false, body))
+		case "disconnect-list-unicast":
+			body, _ := cbor.Marshal(map[string]any{"d": []netip.Addr{others[c.Pick("disc.peer", len(others))].IP()}})
+			held = env.hold(sendCrafted(frame.RouterPing, "disconnect", 0, false, body))
 		}
 		// Keep only frames that originate at X.
 		var genuine []*vnet.InFlight
@@ -498,7 +539,7 @@ func TestC07(t *testing.T) {
 		ms.vn.Queue = nil
 		// Non-trivial: an attack derived from a ping whose legitimate twin changes state.
 		changing := map[string]bool{"hello-request": true, "hello-response": true, "error-unreachable": true, "error-no-keys": true,
-			"error-access-denied": true, "error-rejected": true, "disconnect-going-down": true, "disconnect-list": true, "announce": true}
+			"error-access-denied": true, "error-rejected": true, "disconnect-going-down-unicast": true, "disconnect-list-unicast": true, "announce": true}
 		nt := !authentic && changing[kindName]
 		c.Eval(fmt.Sprintf("%s|%s|fc=%v", kindName, altName, firstContact), nt, func() any {
 			return map[string]any{"ping": kindName, "alteration": altName, "first_contact": firstContact, "topology": topo.String(), "state_changes": diff}
@@ -532,7 +573,7 @@ func c07Allowed(kind, d string, x, u netip.Addr) bool {
 		return strings.HasPrefix(d, "session["+x.String()+"]")
 	case "error-unreachable", "error-access-denied", "error-rejected":
 		return strings.HasPrefix(d, "connection states")
-	case "disconnect-going-down", "disconnect-list":
+	case "disconnect-going-down", "disconnect-list", "disconnect-going-down-unicast", "disconnect-list-unicast":
 		if strings.HasPrefix(d, "table -") {
 			return aboutX
 		}
